@@ -74,10 +74,11 @@ class ParticleReleaser(Iterator[pd.DataFrame]):
         self.clean_position(grid)
 
         # Remove everything after simulation stop time
+        # The stop time itself is not simulated, nothing is released there
         if timer.time_reversal:
-            self._df = self._df[self._df.index >= self.stop_time]  # Use < ?
+            self._df = self._df[self._df.index > self.stop_time]
         else:
-            self._df = self._df[self._df.index <= self.stop_time]  # Use < ?
+            self._df = self._df[self._df.index < self.stop_time]
         if len(self._df) == 0:  # All release after simulation time
             logger.critical("All particles released after simulation stop")
             raise SystemExit(3)
